@@ -79,3 +79,7 @@ TABLE["C17"] = dict(engine="simworld", technique="property-based testing: Hypoth
 TABLE["C16"] = dict(engine="simworld", technique="property-based testing: Hypothesis-generated ping intervals, pong delays, silence onsets, pre-monitoring reconnects on the simulated clock against the real Manager/TrafficTimer in a real dilated pair; oracle = drop within 3 intervals of the last answered ping, never drop a responsive peer, new generation + resumed monitoring afterwards, no monitor timer after loss or close",
     text="Time is owned by the harness: the clock jumps from timer to timer, the Follower->Leader bytes of the link in use are delayed or black-holed per case, pings/pongs/disconnects are observed through wrappers on the Leader; zero-latency exchanges that never let time pass are given a small round-trip time so that ping storms show up as late drops rather than livelock.",
     note=DIL_NOTE + " Simulated clock only; float tolerance 1e-9.")
+
+TABLE["C15"] = dict(engine="component", technique="property-based testing: Hypothesis-generated operation histories (register/unregister push and pull producers, closes, drains, pauses arriving inside a producer's turn, connection loss/replacement, subchannel pause/resume/stop) on the real Outbound and Inbound with a model connection, invariant after every operation; plus real dilated wormholes with application producers and tiny buffers",
+    text="Model-based history generation (an operation list with an invariant check after every step; Hypothesis shrinks the whole list) against the real Outbound/Inbound, and the same last-signal invariants observed on real subchannels of a real dilated pair, where the real connection object sits under Inbound. The missing pauseProducing/resumeProducing on the real connection was repaired in repo commit ac331df (fix:).",
+    note=DIL_NOTE + " The model connection pauses synchronously inside send_record() as Twisted's FileDescriptor does.")
